@@ -137,6 +137,34 @@ CheckSpec == InitFor([m |-> 1, len |-> <<1>>, fault |-> <<"none">>, at |-> <<0>>
         for p in problems:
             chk.violation("session/wire/" + p, "record judged by Tcpcl!SegsFrom: " + json.dumps({k: v for k, v in wrecs[idx].items() if k != "segs"}) +
                           " first segments " + json.dumps(wrecs[idx]["segs"][:3]), wrecs[idx])
+    # the receiving direction of a whole client: three bundles in one session, compared after all have been handed up
+    rrecf = os.path.join(scratch("rec"), "c11-recv.ndjson")
+    st5 = run_harness(chk, "client sessions, receiving", "pkg/cla/tcpclv4", ["common/vh.go", "tcpclv4/client.go"], "TestVerifC11ClientReceive", env={"VERIF_REC": rrecf}, timeout=600)
+    rrecs = read_ndjson(rrecf)
+    if len(rrecs) != st5.get("sessions") or not rrecs:
+        raise InfraError("client reception recorder incomplete: %s" % st5)
+    rmod = {"TcpclRecv.tla": """---- MODULE TcpclRecv ----
+EXTENDS Integers, Sequences, TLC, Json
+CONSTANT RecFile
+Recs == ndJsonDeserialize(RecFile)
+\\* the receiver hands up exactly one bundle identical to the one sent, for every transfer of the session
+RecvProblems(r) ==
+  {p \\in {"session-failed", "not-one-bundle-per-transfer", "handed-up-bundle-differs-from-the-one-sent"} :
+     CASE p = "session-failed" -> r.err # ""
+       [] p = "not-one-bundle-per-transfer" -> r.err = "" /\\ r.handed # r.sent
+       [] p = "handed-up-bundle-differs-from-the-one-sent" -> \\E i \\in 1..Len(r.same) : ~r.same[i]}
+ASSUME \\A i \\in 1..Len(Recs) : LET p == RecvProblems(Recs[i]) IN p = {} \\/ PrintT(<<"BAD", ToJson([i |-> i, problems |-> p])>>)
+ASSUME PrintT(<<"CHECKED", ToJson([n |-> Len(Recs)])>>)
+VARIABLE x
+CheckSpec == x = 0 /\\ [][FALSE]_x
+====
+"""}
+    n6, bad6, results6 = check_records("TcpclRecv", "", rrecs, name="tcpclrecv", extra_files=rmod)
+    for r in results6:
+        chk.add_tlc("reception records", r)
+    for idx, problems in bad6:
+        for p in problems:
+            chk.violation("session/receive/" + p, "record: " + json.dumps(rrecs[idx]), rrecs[idx])
     ndiv = sum(1 for t in traces if any(l % t["cfg"]["m"] == 0 for l in t["cfg"]["len"]))
     if ndiv == 0:
         raise InfraError("vacuous: no scenario in which the segment size divides the encoded length")
